@@ -61,7 +61,12 @@ class Parser(Emitter):
                 fn = None
         if fn is None:
             raise formulaserror.NAME
-        result['value'] = fn(*args)
+        try:
+            result['value'] = fn(*args)
+        except formulaserror.XLError as xlerror:
+            # errors are values: one raised inside a function (aggregates raise the error items
+            # they meet) is the value of the call, so that IFERROR, ISERROR, ... can observe it
+            result['value'] = xlerror
 
         def valsetter(new_value):
             if new_value is not None:
